@@ -221,7 +221,8 @@ class Run:
         self.case = None
 
     def mine(self, index):
-        return index % self.nshards == self.shard
+        # multiplicative hash: structured index spaces (variant = i % k) spread evenly
+        return (((index * 0x9E3779B1) & 0xFFFFFFFF) >> 12) % self.nshards == self.shard
 
     def out_of_time(self):
         if self.deadline and time.time() > self.deadline:
